@@ -84,6 +84,7 @@ Section Typed.
     intros v f x Hw H. destruct v as [| | |m fs|u [w|]|ks e [es|]]; simpl in H; try discriminate.
     - destruct (take_field_typed m fs f x Hw H) as [ft [_ Ht]]. apply andb_true_iff in Ht. tauto.
     - destruct w as [| | |m fs| |]; try discriminate.
+      destruct (is_any u); [discriminate|].
       simpl in Hw. apply andb_true_iff in Hw. destruct Hw as [_ Hw].
       destruct (take_field_typed m fs f x Hw H) as [ft [_ Ht]]. apply andb_true_iff in Ht. tauto.
     - destruct ks; [|discriminate]. destruct (aget f es) as [x1|] eqn:Ea; [|discriminate].
@@ -227,7 +228,8 @@ Section FieldMapSpec.
   Proof.
     induction p as [|f r IH]; intros v; simpl; [discriminate|].
     destruct (take_one env v f) as [x| |] eqn:E; simpl; try discriminate; [apply IH|].
-    destruct v as [| | | |? [[]|]|[] ? [?|]]; simpl in E; try discriminate;
+    destruct v as [| | | |u [[]|]|[] ? [?|]]; simpl in E; try discriminate;
+      try (destruct (is_any u); [discriminate|]);
       unfold take_field in E;
       repeat match type of E with
              | context[match ?c with _ => _ end] => destruct c
@@ -847,3 +849,386 @@ Section Runs.
     unfold conflict in Hf. apply orb_false_iff in Hf. exact Hf.
   Qed.
 End Runs.
+
+(* ------------------------------------------------------------ acceptance does not depend on the order *)
+Section CompileOrder.
+  Variable env : senv.
+  Variable T : ty.
+
+  (* the static part of one declaration *)
+  Definition decl_static (d : decl) : option checks :=
+    match d_maps d with
+    | [] => match check_assignable (d_ty d) T with MustNot => None | _ => Some [] end
+    | ms => validate env (d_ty d) T ms
+    end.
+
+  Lemma compile_from_accept_iff : forall ds t,
+    (exists ckss, compile_from env T t ds = CAccept ckss) <->
+    (tinsert_decls (map decl_paths ds) t <> None /\ Forall (fun d => decl_static d <> None) ds).
+  Proof.
+    induction ds as [|d ds IH]; intros t; simpl.
+    - split; [intros _; split; [discriminate | constructor] | intros _; eexists; reflexivity].
+    - destruct (tinsert_all (decl_paths d) t) as [t'|] eqn:Et.
+      2: { split; [intros [c Hc]; discriminate | intros [H _]; contradiction]. }
+      match goal with
+      | |- context[match ?X with Some c => _ | None => CErrStatic end] =>
+          replace X with (decl_static d) by (unfold decl_static; destruct (d_maps d); reflexivity)
+      end.
+      destruct (decl_static d) as [c|] eqn:Es.
+      2: { split; [intros [c Hc]; discriminate | intros [_ H]; inversion H; subst; contradiction]. }
+      specialize (IH t'). split.
+      + intros [ckss Hc]. destruct (compile_from env T t' ds) as [cs| |] eqn:Ec; try discriminate.
+        destruct (proj1 IH (ex_intro _ cs eq_refl)) as [H1 H2].
+        split; [exact H1 | constructor; [rewrite Es; discriminate | exact H2]].
+      + intros [H1 H2]. inversion H2 as [|? ? Hd Hds]; subst.
+        destruct (proj2 IH (conj H1 Hds)) as [cs Hcs]. rewrite Hcs. eexists; reflexivity.
+  Qed.
+
+  Theorem compile_accept_perm : forall ds ds',
+    Permutation ds ds' ->
+    ((exists ckss, compile env T ds = CAccept ckss) <-> (exists ckss', compile env T ds' = CAccept ckss')).
+  Proof.
+    assert (K : forall ds ds', Permutation ds ds' ->
+              (exists ckss, compile env T ds = CAccept ckss) -> exists ckss', compile env T ds' = CAccept ckss').
+    { intros ds ds' HP H. unfold compile in *. apply compile_from_accept_iff in H. destruct H as [H1 H2].
+      apply compile_from_accept_iff. split.
+      - rewrite tinsert_decls_flat in *.
+        assert (HPt : Permutation (List.concat (map decl_paths ds)) (List.concat (map decl_paths ds'))).
+        { rewrite <- !flat_map_concat_map. apply Permutation_flat_map. exact HP. }
+        pose proof (overlap_check_perm _ _ HPt) as Ho. unfold overlap_check in Ho.
+        destruct (tinsert_all (List.concat (map decl_paths ds)) (Node [])); [|contradiction].
+        destruct (tinsert_all (List.concat (map decl_paths ds')) (Node [])); [discriminate | discriminate].
+      - eapply Permutation_Forall; eauto. }
+    intros ds ds' HP. split; apply K; [exact HP | apply Permutation_sym; exact HP].
+  Qed.
+End CompileOrder.
+
+(* ------------------------------------------------------------ static values (SetStaticValue) *)
+Section RunsStatic.
+  Variable env : senv.
+  Variable T : ty.
+
+  Lemma validate_statics_fits : forall ss, validate_statics env T ss = true -> fits env T ss.
+  Proof.
+    induction ss as [|[to v] ss IH]; intros H p x Hin; [contradiction|].
+    simpl in H. destruct (extract_ty env T to) as [st sb|] eqn:He; [|discriminate].
+    apply andb_true_iff in H. destruct H as [H1 H2].
+    destruct Hin as [Hin|Hin]; [|apply IH; assumption].
+    inversion Hin; subst. exists st, sb. split; [exact He|].
+    destruct sb; [|exact H1]. destruct st; try discriminate. apply check_value_any.
+  Qed.
+
+  Lemma compile_s_inv : forall ds ss ckss,
+    compile_s env T ds ss = CAccept ckss ->
+    compile env T ds = CAccept ckss /\
+    (ss = [] \/ (no_conflict (all_targets ds ++ map fst ss) /\ validate_statics env T ss = true)).
+  Proof.
+    intros ds ss ckss H. unfold compile_s in H.
+    destruct (compile env T ds) as [cks| |] eqn:Ec; try discriminate.
+    destruct ss as [|s ss]; [inversion H; subst; split; [reflexivity | left; reflexivity]|].
+    destruct (overlap_check (all_targets ds ++ map fst (s :: ss))) eqn:Eo; [|discriminate].
+    destruct (validate_statics env T (s :: ss)) eqn:Ev; [|discriminate].
+    inversion H; subst. split; [reflexivity|]. right. split; [apply overlap_check_iff; exact Eo | reflexivity].
+  Qed.
+
+  Lemma fits_app : forall m1 m2, fits env T m1 -> fits env T m2 -> fits env T (m1 ++ m2).
+  Proof. intros m1 m2 H1 H2 p x Hin. apply in_app_or in Hin. destruct Hin; [apply H1 | apply H2]; assumption. Qed.
+
+  (* Invoke, with static values: never a panic; the mapped paths and the static paths read back
+     their values, everything else reads zero *)
+  Theorem invoke_spec_s : forall ds ss ckss srcs,
+    compile_s env T ds ss = CAccept ckss -> has_plain ds = false ->
+    Forall2 (fun d s => has_type env (d_ty d) s = true) ds srcs ->
+    match run_invoke_s env T ds ss ckss srcs with
+    | Panic => False
+    | Err _ => True
+    | Ok v =>
+        (forall d s from to, In (d, s) (combine ds srcs) -> In (from, to) (d_maps d) ->
+           exists x st b, take_path env s from = Ok x /\ extract_ty env T to = SOk st b /\
+                          take_path env v to = Ok (conv st x)) /\
+        (forall to x, In (to, x) ss ->
+           exists st b, extract_ty env T to = SOk st b /\ take_path env v to = Ok (conv st x)) /\
+        (forall q z, q <> [] -> fresh_for q (all_targets ds ++ map fst ss) -> take_path env v q = Ok z ->
+           exists st b, extract_ty env T q = SOk st b /\ z = zero st)
+    end.
+  Proof.
+    intros ds ss ckss srcs Hcs Hp Ht.
+    destruct (compile_s_inv ds ss ckss Hcs) as [Hc Hs].
+    destruct ss as [|s0 ss0].
+    - simpl. pose proof (invoke_spec env T ds ckss srcs Hc Hp Ht) as H.
+      destruct (run_invoke env T ds ckss srcs) as [v|e|]; auto.
+      destruct H as [H1 H2]. split; [exact H1|]. split; [intros to x []|].
+      rewrite app_nil_r. exact H2.
+    - destruct Hs as [Hs|[Hnc Hvs]]; [discriminate|].
+      change (run_invoke_s env T ds (s0 :: ss0) ckss srcs)
+        with (do ms <- edges_out env ds ckss srcs; do m <- merge_maps (ms ++ [s0 :: ss0]) []; convert_to env T m).
+      remember (s0 :: ss0) as ss eqn:Ess. clear Ess Hcs.
+      pose proof (has_plain_false _ Hp) as Hnp.
+      pose proof (compile_no_conflict _ _ _ _ Hc) as Hncd.
+      pose proof (compile_from_valid env T ds (Node []) ckss Hnp Hc) as Hv.
+      destruct (edges_out env ds ckss srcs) as [mss|e|] eqn:Eo; simpl; [|exact I|exact (edges_out_no_panic _ _ _ _ Eo)].
+      pose proof (edges_out_rel env T ds ckss srcs mss Hv Ht (no_conflict_decl ds Hnp Hncd) Eo) as Hrel.
+      destruct (merge_maps (mss ++ [ss]) []) as [m|e|] eqn:Em; simpl; [|exact I|exact (merge_maps_no_panic _ _ Em)].
+      apply merge_maps_spec in Em. simpl in Em. rewrite concat_app in Em. simpl in Em. rewrite app_nil_r in Em. subst m.
+      pose proof (edges_rel_keys env T ds srcs mss Hnp Hrel) as Hk.
+      assert (Hkeys : keys (List.concat mss ++ ss) = all_targets ds ++ map fst ss).
+      { unfold keys in *. rewrite map_app, Hk. reflexivity. }
+      destruct (convert_to_spec env T (List.concat mss ++ ss)) as [v [Hcv [Hget Hzero]]].
+      { rewrite Hkeys. exact Hnc. }
+      { apply fits_app; [eapply edges_rel_fits; eauto | apply validate_statics_fits; exact Hvs]. }
+      rewrite Hcv. split; [|split].
+      + intros d s from to Hin Hmp.
+        destruct (edges_rel_get env T ds srcs mss d s (from, to) Hrel Hin Hmp) as [x [Hx Hinm]]. simpl in *.
+        destruct (Hget to x ltac:(apply in_or_app; left; exact Hinm)) as [st [b [He Hr]]]. exists x, st, b. auto.
+      + intros to x Hin. apply Hget. apply in_or_app. right. exact Hin.
+      + intros q z Hq Hf Hr. apply Hzero; auto. rewrite Hkeys. exact Hf.
+  Qed.
+
+  (* the chunk that carries the static values *)
+  Definition static_chunk_post (ss : statics) (v : val) : Prop :=
+    (forall to x, In (to, x) ss ->
+       exists st b, extract_ty env T to = SOk st b /\ take_path env v to = Ok (conv st x)) /\
+    (forall q z, q <> [] -> fresh_for q (map fst ss) -> take_path env v q = Ok z ->
+       exists st b, extract_ty env T q = SOk st b /\ z = zero st).
+
+  Lemma static_chunk_spec : forall ds ss,
+    no_conflict (all_targets ds ++ map fst ss) -> validate_statics env T ss = true ->
+    exists v, convert_to env T ss = Ok v /\ static_chunk_post ss v.
+  Proof.
+    intros ds ss Hnc Hvs. apply no_conflict_app in Hnc. destruct Hnc as [_ [Hnc _]].
+    destruct (convert_to_spec env T ss Hnc (validate_statics_fits ss Hvs)) as [v [Hcv [Hget Hzero]]].
+    exists v. split; [exact Hcv|]. split; [exact Hget | exact Hzero].
+  Qed.
+
+  Theorem stream_spec_s : forall ds ss ckss chunkss,
+    compile_s env T ds ss = CAccept ckss -> has_plain ds = false ->
+    Forall2 (fun d cs => Forall (fun c => has_type env (d_ty d) c = true) cs) ds chunkss ->
+    match run_stream_s env T ds ss ckss chunkss with
+    | Panic => False
+    | Err _ => True
+    | Ok vs =>
+        match ss with
+        | [] => stream_rel env T ds chunkss vs
+        | _ => exists vs' v, vs = vs' ++ [v] /\ stream_rel env T ds chunkss vs' /\ static_chunk_post ss v
+        end
+    end.
+  Proof.
+    intros ds ss ckss chunkss Hcs Hp Ht.
+    destruct (compile_s_inv ds ss ckss Hcs) as [Hc Hs].
+    pose proof (stream_spec env T ds ckss chunkss Hc Hp Ht) as H.
+    destruct ss as [|s0 ss0]; [exact H|].
+    destruct Hs as [Hs|[Hnc Hvs]]; [discriminate|].
+    change (run_stream_s env T ds (s0 :: ss0) ckss chunkss)
+      with (do vs <- run_stream_from env T ds ckss chunkss; do v <- convert_to env T (s0 :: ss0); Ok (vs ++ [v])).
+    unfold run_stream in H. rewrite Hp in H.
+    destruct (run_stream_from env T ds ckss chunkss) as [vs|e|]; simpl; [|exact I|exact H].
+    destruct (static_chunk_spec ds (s0 :: ss0) Hnc Hvs) as [v [Hcv Hpost]].
+    rewrite Hcv. simpl. exists vs, v. split; [reflexivity|]. split; [exact H | exact Hpost].
+  Qed.
+
+  Theorem run_no_panic_s : forall ds ss ckss,
+    compile_s env T ds ss = CAccept ckss ->
+    (forall srcs, Forall2 (fun d s => has_type env (d_ty d) s = true) ds srcs ->
+                  run_invoke_s env T ds ss ckss srcs <> Panic) /\
+    (forall chunkss, Forall2 (fun d cs => Forall (fun c => has_type env (d_ty d) c = true) cs) ds chunkss ->
+                     run_stream_s env T ds ss ckss chunkss <> Panic).
+  Proof.
+    intros ds ss ckss Hcs. destruct (has_plain ds) eqn:Hp.
+    - (* a plain edge: no static values can have been accepted beside it *)
+      destruct (compile_s_inv ds ss ckss Hcs) as [Hc Hs].
+      destruct ss as [|s0 ss0].
+      + simpl. apply (run_no_panic env T ds ckss Hc).
+      + exfalso. destruct Hs as [Hs|[Hnc _]]; [discriminate|].
+        destruct (plain_alone env T ds ckss Hc Hp) as [d [-> Hd]].
+        unfold all_targets, decl_paths in Hnc. simpl in Hnc. rewrite Hd in Hnc. simpl in Hnc.
+        destruct Hnc as [Hf _]. inversion Hf; subst. discriminate.
+    - split.
+      + intros srcs Ht E. pose proof (invoke_spec_s ds ss ckss srcs Hcs Hp Ht) as H. rewrite E in H. exact H.
+      + intros chunkss Ht E. pose proof (stream_spec_s ds ss ckss chunkss Hcs Hp Ht) as H. rewrite E in H. exact H.
+  Qed.
+
+  (* Stream agrees with Invoke, static values included: one more chunk, equal to the Invoke
+     result on the static paths and zero elsewhere *)
+  Theorem stream_agrees_s : forall ds ss ckss srcs v,
+    compile_s env T ds ss = CAccept ckss -> has_plain ds = false ->
+    Forall2 (fun d s => has_type env (d_ty d) s = true) ds srcs ->
+    run_invoke_s env T ds ss ckss srcs = Ok v ->
+    exists vs, run_stream_from env T ds ckss (map (fun s => [s]) srcs) = Ok vs /\
+      Forall2 (fun d vi =>
+                 (forall from to, In (from, to) (d_maps d) -> take_path env vi to = take_path env v to) /\
+                 (forall q z, q <> [] -> fresh_for q (map snd (d_maps d)) -> take_path env vi q = Ok z ->
+                              exists st b, extract_ty env T q = SOk st b /\ z = zero st)) ds vs /\
+      match ss with
+      | [] => run_stream_s env T ds ss ckss (map (fun s => [s]) srcs) = Ok vs
+      | _ => exists vst, run_stream_s env T ds ss ckss (map (fun s => [s]) srcs) = Ok (vs ++ [vst]) /\
+                         (forall to x, In (to, x) ss -> take_path env vst to = take_path env v to) /\
+                         (forall q z, q <> [] -> fresh_for q (map fst ss) -> take_path env vst q = Ok z ->
+                                      exists st b, extract_ty env T q = SOk st b /\ z = zero st)
+      end.
+  Proof.
+    intros ds ss ckss srcs v Hcs Hp Ht Hinv.
+    destruct (compile_s_inv ds ss ckss Hcs) as [Hc Hs].
+    destruct ss as [|s0 ss0].
+    - simpl in Hinv. destruct (stream_agrees env T ds ckss srcs v Hc Hp Ht Hinv) as [vs [Hrs HF]].
+      exists vs. unfold run_stream in Hrs. rewrite Hp in Hrs. split; [exact Hrs|]. split; [exact HF|].
+      simpl. unfold run_stream. rewrite Hp. exact Hrs.
+    - destruct Hs as [Hs|[Hnc Hvs]]; [discriminate|].
+      pose proof (invoke_spec_s ds (s0 :: ss0) ckss srcs Hcs Hp Ht) as Hspec. rewrite Hinv in Hspec.
+      destruct Hspec as [Hgd [Hgs _]].
+      change (run_invoke_s env T ds (s0 :: ss0) ckss srcs)
+        with (do ms <- edges_out env ds ckss srcs; do m <- merge_maps (ms ++ [s0 :: ss0]) []; convert_to env T m) in Hinv.
+      remember (s0 :: ss0) as ss eqn:Ess.
+      pose proof (has_plain_false _ Hp) as Hnp.
+      pose proof (compile_no_conflict _ _ _ _ Hc) as Hncd.
+      pose proof (compile_from_valid env T ds (Node []) ckss Hnp Hc) as Hv.
+      destruct (edges_out env ds ckss srcs) as [mss|e|] eqn:Eo; simpl in Hinv; try discriminate.
+      pose proof (edges_out_rel env T ds ckss srcs mss Hv Ht (no_conflict_decl ds Hnp Hncd) Eo) as Hrel.
+      pose proof (no_conflict_each ds Hnp Hncd) as Hnce.
+      (* per declaration: convert its own map, compare with v through Hgd *)
+      assert (G : forall ds' ckss' srcs' mss',
+                (forall d s from to, In (d, s) (combine ds' srcs') -> In (from, to) (d_maps d) ->
+                   exists x st b, take_path env s from = Ok x /\ extract_ty env T to = SOk st b /\
+                                  take_path env v to = Ok (conv st x)) ->
+                edges_out env ds' ckss' srcs' = Ok mss' -> edges_rel env T ds' srcs' mss' ->
+                Forall (fun d => no_conflict (map snd (d_maps d))) ds' ->
+                exists vs, run_stream_from env T ds' ckss' (map (fun s => [s]) srcs') = Ok vs /\
+                  Forall2 (fun d vi =>
+                    (forall from to, In (from, to) (d_maps d) -> take_path env vi to = take_path env v to) /\
+                    (forall q z, q <> [] -> fresh_for q (map snd (d_maps d)) -> take_path env vi q = Ok z ->
+                                 exists st b, extract_ty env T q = SOk st b /\ z = zero st)) ds' vs).
+      { intros ds' ckss' srcs' mss' Hg Eo' Hrel'. revert ckss' Eo' Hg.
+        induction Hrel' as [|d s m ds' ss' ms HF Hfit Hrel' IH]; intros ckss' Eo' Hg Hn.
+        - exists []. split; [destruct ckss'; reflexivity | constructor].
+        - inversion Hn as [|? ? Hnd Hn']; subst.
+          destruct ckss' as [|c cs]; [simpl in Eo'; discriminate|].
+          simpl in Eo'. unfold edge_out in Eo'.
+          destruct (field_map env (d_maps d) false s []) as [m0| |] eqn:Ef; try discriminate. simpl in Eo'.
+          destruct (run_checks c m0) as [m1| |] eqn:Er; try discriminate. simpl in Eo'.
+          destruct (edges_out env ds' cs ss') as [r| |] eqn:Eo2; try discriminate. simpl in Eo'.
+          inversion Eo'; subst m1 r. clear Eo'.
+          destruct (run_checks_spec _ _ _ Er) as [Em0 _]. subst m0.
+          assert (Hkm : keys m = map snd (d_maps d)) by (apply (forall2_keys _ _ _ _ HF)).
+          destruct (convert_to_spec env T m) as [vi [Hcvi [Hgeti Hzeroi]]].
+          { rewrite Hkm. exact Hnd. }
+          { exact Hfit. }
+          destruct (IH cs Eo2) as [vs [Hvs' HF2]].
+          { intros d' s' from to Hin Hmp. apply (Hg d' s' from to); [right; exact Hin | exact Hmp]. }
+          { exact Hn'. }
+          exists (vi :: vs). split.
+          + simpl. unfold edge_out. rewrite (field_map_lenient_eq _ _ _ _ _ Ef). simpl. rewrite Er. simpl.
+            rewrite Hcvi. simpl. rewrite Hvs'. reflexivity.
+          + constructor; [|exact HF2]. split.
+            * intros from to Hin. destruct (forall2_in_l _ _ _ _ _ HF Hin) as [[k x] [Hkx [Hk' Hx]]]. simpl in *. subst k.
+              destruct (Hgeti to x Hkx) as [st [b [He Hr]]].
+              destruct (Hg d s from to (or_introl eq_refl) Hin) as [x' [st' [b' [Hx' [He' Hr']]]]].
+              rewrite Hx in Hx'. inversion Hx'; subst x'.
+              rewrite Hr, Hr'. rewrite (extract_ty_fun env T _ _ _ _ _ He He'). reflexivity.
+            * intros q z Hq Hfr Hr. apply Hzeroi; auto. rewrite Hkm. exact Hfr. }
+      destruct (G ds ckss srcs mss Hgd Eo Hrel Hnce) as [vs [Hrs HF]].
+      exists vs. split; [exact Hrs|]. split; [exact HF|].
+      destruct (static_chunk_spec ds ss Hnc Hvs) as [vst [Hcv [Hsg Hsz]]].
+      rewrite Ess. rewrite <- Ess.
+      assert (Hrun : run_stream_s env T ds ss ckss (map (fun s => [s]) srcs) = Ok (vs ++ [vst])).
+      { rewrite Ess. change (run_stream_s env T ds (s0 :: ss0) ckss (map (fun s => [s]) srcs))
+          with (do vs <- run_stream_from env T ds ckss (map (fun s => [s]) srcs);
+                do v <- convert_to env T (s0 :: ss0); Ok (vs ++ [v])).
+        rewrite <- Ess. rewrite Hrs. simpl. rewrite Hcv. reflexivity. }
+      rewrite Ess in *. exists vst. split; [exact Hrun|]. split; [|exact Hsz].
+      intros to x Hin. destruct (Hsg to x Hin) as [st [b [He Hr]]].
+      destruct (Hgs to x Hin) as [st' [b' [He' Hr']]].
+      rewrite Hr, Hr'. rewrite (extract_ty_fun env T _ _ _ _ _ He He'). reflexivity.
+  Qed.
+
+  Lemma nodup_app_l : forall {A} (l l' : list A), NoDup (l ++ l') -> NoDup l.
+  Proof.
+    induction l as [|a l IH]; intros l' H; [constructor|]. simpl in H. inversion H; subst.
+    constructor; [intro Hin; apply H2; apply in_or_app; left; exact Hin | eapply IH; eauto].
+  Qed.
+
+  (* the static values live in a Go map: their order is arbitrary, and does not matter *)
+  Lemma validate_statics_perm : forall ss ss', Permutation ss ss' -> validate_statics env T ss = validate_statics env T ss'.
+  Proof.
+    intros ss ss' HP. induction HP as [|[to v] l l' _ IH|[to v] [to' v'] l|l l' l'' _ IH1 _ IH2]; simpl.
+    - reflexivity.
+    - rewrite IH. reflexivity.
+    - destruct (extract_ty env T to') as [st' sb'|]; destruct (extract_ty env T to) as [st sb|]; simpl;
+        rewrite ?andb_false_r; try reflexivity.
+      rewrite !andb_assoc. f_equal. apply andb_comm.
+    - congruence.
+  Qed.
+
+  Theorem compile_s_statics_perm : forall ds ss ss',
+    Permutation ss ss' -> compile_s env T ds ss = compile_s env T ds ss'.
+  Proof.
+    intros ds ss ss' HP. unfold compile_s. destruct (compile env T ds) as [cks| |]; try reflexivity.
+    destruct ss as [|s0 ss0]; destruct ss' as [|s0' ss0'].
+    - reflexivity.
+    - apply Permutation_nil in HP. discriminate.
+    - apply Permutation_sym, Permutation_nil in HP. discriminate.
+    - rewrite (overlap_check_perm (all_targets ds ++ map fst (s0 :: ss0)) (all_targets ds ++ map fst (s0' :: ss0'))).
+      + rewrite (validate_statics_perm _ _ HP). reflexivity.
+      + apply Permutation_app_head. apply Permutation_map. exact HP.
+  Qed.
+
+  Theorem run_invoke_s_statics_perm : forall ds ss ss' ckss srcs,
+    compile_s env T ds ss = CAccept ckss -> has_plain ds = false ->
+    Forall2 (fun d s => has_type env (d_ty d) s = true) ds srcs ->
+    Permutation ss ss' ->
+    run_invoke_s env T ds ss ckss srcs = run_invoke_s env T ds ss' ckss srcs.
+  Proof.
+    intros ds ss ss' ckss srcs Hcs Hp Ht HP.
+    destruct (compile_s_inv ds ss ckss Hcs) as [Hc Hs].
+    destruct ss as [|s0 ss0]; destruct ss' as [|s0' ss0'].
+    - reflexivity.
+    - apply Permutation_nil in HP. discriminate.
+    - apply Permutation_sym, Permutation_nil in HP. discriminate.
+    - destruct Hs as [Hs|[Hnc Hvs]]; [discriminate|].
+      change (run_invoke_s env T ds (s0 :: ss0) ckss srcs)
+        with (do ms <- edges_out env ds ckss srcs; do m <- merge_maps (ms ++ [s0 :: ss0]) []; convert_to env T m).
+      change (run_invoke_s env T ds (s0' :: ss0') ckss srcs)
+        with (do ms <- edges_out env ds ckss srcs; do m <- merge_maps (ms ++ [s0' :: ss0']) []; convert_to env T m).
+      remember (s0 :: ss0) as ss eqn:Ess. remember (s0' :: ss0') as ss' eqn:Ess'. clear Ess Ess' Hcs.
+      pose proof (has_plain_false _ Hp) as Hnp.
+      pose proof (compile_no_conflict _ _ _ _ Hc) as Hncd.
+      pose proof (compile_from_valid env T ds (Node []) ckss Hnp Hc) as Hv.
+      destruct (edges_out env ds ckss srcs) as [mss|e|] eqn:Eo; simpl; try reflexivity.
+      pose proof (edges_out_rel env T ds ckss srcs mss Hv Ht (no_conflict_decl ds Hnp Hncd) Eo) as Hrel.
+      pose proof (edges_rel_keys env T ds srcs mss Hnp Hrel) as Hk.
+      (* both merges succeed (disjoint keys) and give permuted lists *)
+      assert (M : forall l, NoDup (keys (List.concat mss ++ l)) -> merge_maps (mss ++ [l]) [] = Ok (List.concat mss ++ l)).
+      { intros l Hnd.
+        assert (MI : forall m acc, NoDup (keys (acc ++ m)) -> merge_into m acc = Ok (acc ++ m)).
+        { induction m as [|[k x] m IHm]; intros acc Hn; simpl; [rewrite app_nil_r; reflexivity|].
+          rewrite fm_get_none.
+          - rewrite IHm; [rewrite <- app_assoc; reflexivity | rewrite <- app_assoc; exact Hn].
+          - unfold keys in Hn. rewrite map_app in Hn. simpl in Hn. apply NoDup_remove_2 in Hn.
+            intro Hin. apply Hn. apply in_or_app. left. exact Hin. }
+        assert (MM : forall ms acc, NoDup (keys (acc ++ List.concat ms)) -> merge_maps ms acc = Ok (acc ++ List.concat ms)).
+        { induction ms as [|m ms IHms]; intros acc Hn; simpl; [rewrite app_nil_r; reflexivity|].
+          simpl in Hn. rewrite MI.
+          - simpl. rewrite IHms; [rewrite <- app_assoc; reflexivity | rewrite <- app_assoc; exact Hn].
+          - rewrite app_assoc in Hn. unfold keys in *. rewrite map_app in Hn. apply nodup_app_l in Hn. exact Hn. }
+        rewrite MM; simpl; rewrite concat_app; simpl; rewrite app_nil_r; [reflexivity | exact Hnd]. }
+      assert (Hkeys : forall l, keys (List.concat mss ++ l) = all_targets ds ++ map fst l).
+      { intro l. unfold keys in *. rewrite map_app, Hk. reflexivity. }
+      assert (Hnc' : no_conflict (all_targets ds ++ map fst ss')).
+      { eapply no_conflict_perm; [|exact Hnc]. apply Permutation_app_head. apply Permutation_map. exact HP. }
+      rewrite (M ss) by (rewrite Hkeys; apply no_conflict_NoDup; exact Hnc).
+      rewrite (M ss') by (rewrite Hkeys; apply no_conflict_NoDup; exact Hnc').
+      simpl. apply convert_to_perm.
+      + apply Permutation_app_head. exact HP.
+      + rewrite Hkeys. exact Hnc.
+  Qed.
+
+  Theorem statics_order_independent : forall ds ss ss',
+    Permutation ss ss' ->
+    compile_s env T ds ss = compile_s env T ds ss' /\
+    forall ckss srcs,
+      compile_s env T ds ss = CAccept ckss -> has_plain ds = false ->
+      Forall2 (fun d s => has_type env (d_ty d) s = true) ds srcs ->
+      run_invoke_s env T ds ss ckss srcs = run_invoke_s env T ds ss' ckss srcs.
+  Proof.
+    intros ds ss ss' HP. split; [apply compile_s_statics_perm; exact HP|].
+    intros ckss srcs Hc Hp Ht. apply run_invoke_s_statics_perm; assumption.
+  Qed.
+End RunsStatic.
